@@ -17,7 +17,7 @@
 (*   of the feature's non-missing window values (min / mean / median;      *)
 (*   1/(max-min), 1/stdev, 1/iqr, 1/max|x+shift|; a statistic that is 0    *)
 (*   gives scale 1 - filters.py 246, test_scale_med_and_iqr_0) or the given*)
-(*   numbers.  A feature is scalable when its non-missing window values are*)
+(*   numbers.  A feature is numeric when its non-missing window values are *)
 (*   all numbers; every other cell (None, NaN, strings, absent keys, all   *)
 (*   cells of a non-numeric feature) is left untouched.                    *)
 (* Impute (sentence 2): every None of an imputable feature becomes the     *)
@@ -34,14 +34,20 @@
 (* irrational: a scaled cell is [t |-> "q", n, d, rn, rd] = (n/d)/sqrt(rn/ *)
 (* rd); rn/rd = 1 except for scale = "std" where it is the sample variance.*)
 (*                                                                         *)
-(* Outside the domain (InDomain; DESIGN.md C11): a feature whose window has*)
-(* no non-missing value; "std" over fewer than two values; a non-zero shift*)
-(* for sparse contexts (documented CobaException); NaN in Impute data; with*)
-(* the indicator, a None inside the window of a feature that is not        *)
-(* imputable (dense and scalar code paths disagree, the property is silent)*)
-(* ; "median" for a feature with missing values whose window holds strings *)
-(* only (statistics.median of an odd number of strings is a string: whether*)
-(* such a feature is "imputable" is not stated).                           *)
+(* When a statistic cannot be computed from the window (no non-missing     *)
+(* value in it; "std" of fewer than two values; "median" of strings only)  *)
+(* the property does not say what the affected cells become: they are      *)
+(* [t |-> "free"] (any value is accepted) while everything else in the     *)
+(* case is still determined.  GIVEN NUMBERS need no statistic: with a      *)
+(* numeric shift AND a numeric scale every numeric cell of a feature whose *)
+(* window holds no non-numeric value is transformed, also when the window  *)
+(* holds no value at all.  A feature that is not imputable but has a None  *)
+(* in the window may or may not get an indicator (the property's wording   *)
+(* asks for one, its "imputable" does not; dense and scalar code differ):  *)
+(* Alts lists the admissible alternatives.                                 *)
+(* Outside the domain (InDomain): a non-zero shift for sparse contexts     *)
+(* (documented CobaException); NaN in Impute data; lists of statistics     *)
+(* together with the indicator.                                            *)
 (*                                                                         *)
 (* Generator / oracle use: every initial state is one case, its successor  *)
 (* prints the input contexts and the expected contexts (Emit).  The other  *)
@@ -117,7 +123,12 @@ Ints(P)        == [i \in DOMAIN P |-> P[i].v]
 
 -----------------------------------------------------------------------------
 (* Scale.  sh / sc: [k |-> "const", n, d] (a given number n/d) or [k |-> statistic name] *)
-Scalable(col, using) == LET P == Present(col, using) IN P # <<>> /\ AllNum(P)
+Free == [t |-> "free", v |-> 0]                                 \* a cell the property does not determine
+(* how many non-missing window values the chosen shift / scale need: given numbers none, std two, the others one *)
+Needs(sh, sc) == IF sc.k = "std" THEN 2 ELSE IF sh.k = "const" /\ sc.k = "const" THEN 0 ELSE 1
+NumericFeature(col, using) == AllNum(Present(col, using))      \* no non-numeric value in the window (possibly no value at all)
+Fitted(col, sh, sc, using) == NumericFeature(col, using) /\ Len(Present(col, using)) >= Needs(sh, sc)
+Scalable(col, sh, sc, using) == Fitted(col, sh, sc, using) /\ Present(col, using) # <<>>
 
 ShiftOf(sh, W) == CASE sh.k = "const"  -> Q(sh.n, sh.d)                       \* filters.py 218-226
                     [] sh.k = "min"    -> QI(-MinSeq(W))
@@ -135,7 +146,8 @@ ScaleOf(sc, W, shift) ==                                                      \*
 QCell(q, r) == [t |-> "q", n |-> q[1], d |-> q[2], rn |-> r[1], rd |-> r[2]]
 
 ScaleCol(col, sh, sc, using) ==
-  IF ~Scalable(col, using) THEN col
+  IF ~NumericFeature(col, using) THEN col
+  ELSE IF ~Fitted(col, sh, sc, using) THEN [i \in DOMAIN col |-> IF col[i].t = "num" THEN Free ELSE col[i]]
   ELSE LET W     == Ints(Present(col, using))
            shift == ShiftOf(sh, W)
            scale == ScaleOf(sc, W, shift)
@@ -155,11 +167,16 @@ Imputation(col, stat, using) ==                                               \*
        [] stat = "median" -> QCell(Median(Ints(P)), QI(1))
        [] stat = "mode"   -> [t |-> "oneof", vs |-> Modes(P)]
 HasNone(col) == \E i \in DOMAIN col : col[i].t = "none"
+(* the statistic cannot be computed and the property does not say what then happens to the missing values *)
+Undetermined(col, stat, using) == LET P == Present(col, using) IN P = <<>> \/ (stat = "median" /\ AllStr(P))
 ImputeCol(col, stat, using) ==
-  IF ~HasNone(col) \/ ~Imputable(col, stat, using) THEN col
-  ELSE [i \in DOMAIN col |-> IF col[i].t = "none" THEN Imputation(col, stat, using) ELSE col[i]]
+  IF ~HasNone(col) THEN col
+  ELSE IF Imputable(col, stat, using) THEN [i \in DOMAIN col |-> IF col[i].t = "none" THEN Imputation(col, stat, using) ELSE col[i]]
+  ELSE IF Undetermined(col, stat, using) THEN [i \in DOMAIN col |-> IF col[i].t = "none" THEN Free ELSE col[i]]
+  ELSE col                                                  \* a non-numeric feature under mean / median is left untouched
 (* the feature gets a missingness indicator *)
 Flagged(col, stat, using) == Imputable(col, stat, using) /\ HasNone(Win(col, using))
+MayBeFlagged(col, stat, using) == ~Imputable(col, stat, using) /\ HasNone(Win(col, using))
 FlagCol(col) == [i \in DOMAIN col |-> IF col[i].t = "none" THEN Num(1) ELSE Num(0)]
 (* a list of statistics: one pass per statistic, in order (core.py 867-871) *)
 RECURSIVE ImputeSeq(_,_,_)
@@ -219,14 +236,8 @@ ScaleCase(shape, cols, sh, sc, u)    == [f |-> "scale",  shape |-> shape, cols |
 ImputeCase(shape, cols, st, ind, u)  == [f |-> "impute", shape |-> shape, cols |-> cols, stats |-> st, ind |-> ind, using |-> u]
 
 InDomain(x) ==
-  /\ \A j \in DOMAIN x.cols : Present(x.cols[j], x.using) # <<>>
-  /\ (x.f = "scale") =>
-       /\ (x.shape = "sparse") => (x.sh = Const(0, 1))
-       /\ (x.sc.k = "std") => \A j \in DOMAIN x.cols : Scalable(x.cols[j], x.using) => Len(Present(x.cols[j], x.using)) >= 2
-  /\ (x.f = "impute") =>
-       /\ x.ind => Len(x.stats) = 1
-       /\ x.ind => \A j \in DOMAIN x.cols : HasNone(Win(x.cols[j], x.using)) => Imputable(x.cols[j], x.stats[1], x.using)
-       /\ ("median" \in Range(x.stats)) => \A j \in DOMAIN x.cols : HasNone(x.cols[j]) => ~AllStr(Present(x.cols[j], x.using))
+  /\ (x.f = "scale") => ((x.shape = "sparse") => (x.sh = Const(0, 1)))
+  /\ (x.f = "impute") => (x.ind => Len(x.stats) = 1)
 
 TwoCols(A, n) == UNION {{<<a, b>>, <<b, a>>} : a \in ColsOf(A, n), b \in Comp(n)}
 
@@ -261,11 +272,13 @@ Spec == Init /\ [][Next]_vars
 (* the oracle *)
 OutCols(x) == IF x.f = "scale" THEN [j \in DOMAIN x.cols |-> ScaleCol(x.cols[j], x.sh, x.sc, x.using)]
               ELSE [j \in DOMAIN x.cols |-> ImputeSeq(x.cols[j], x.stats, x.using)]
-OutFlags(x) == IF x.f = "impute" /\ x.ind
-               THEN LET js == SeqOfSet({j \in DOMAIN x.cols : Flagged(x.cols[j], x.stats[1], x.using)})
-                    IN  [f \in DOMAIN js |-> <<js[f], FlagCol(x.cols[js[f]])>>]
-               ELSE <<>>
+FlagsFor(x, J) == LET js == SeqOfSet(J) IN [f \in DOMAIN js |-> <<js[f], FlagCol(x.cols[js[f]])>>]
+MustFlag(x) == IF x.f = "impute" /\ x.ind THEN {j \in DOMAIN x.cols : Flagged(x.cols[j], x.stats[1], x.using)} ELSE {}
+MayFlag(x)  == IF x.f = "impute" /\ x.ind THEN {j \in DOMAIN x.cols : MayBeFlagged(x.cols[j], x.stats[1], x.using)} ELSE {}
+OutFlags(x) == FlagsFor(x, MustFlag(x))
 Expected(x) == Contexts(x.shape, OutCols(x), OutFlags(x))
+(* equally admissible: indicators also for some of the features that have a None in the window but are not imputable *)
+Alts(x)     == {Contexts(x.shape, OutCols(x), FlagsFor(x, MustFlag(x) \cup S)) : S \in (SUBSET MayFlag(x)) \ {{}}}
 (* History independence.  A filter OBJECT is applied to many sequences: Environments.filter (core.py) hands one Scale /     *)
 (* Impute object to every environment, and every environment is read once per learner.  The property quantifies over "all  *)
 (* interaction sequences": what an object returns for the k-th sequence it is given is the expectation for that sequence    *)
@@ -275,7 +288,7 @@ Given(x)    == Contexts(x.shape, x.cols, <<>>)
 
 Emit == go => PrintT(ToJson([f |-> c.f, shape |-> c.shape, using |-> c.using,
                              par |-> IF c.f = "scale" THEN [sh |-> c.sh, sc |-> c.sc] ELSE [stats |-> c.stats, ind |-> c.ind],
-                             cols |-> c.cols, given |-> Given(c), expected |-> Expected(c)]))
+                             cols |-> c.cols, given |-> Given(c), expected |-> Expected(c), alts |-> Alts(c)]))
 
 -----------------------------------------------------------------------------
 (* design-level facts about the oracle, checked by TLC on every case *)
@@ -285,8 +298,14 @@ Conservation ==
   go => /\ Len(Expected(c)) = Len(c.cols[1])
         /\ \A j \in DOMAIN c.cols : \A i \in DOMAIN c.cols[j] :
              LET a == c.cols[j][i]  b == OutCols(c)[j][i]
-             IN  IF c.f = "scale" THEN (a.t # "num" => b = a) /\ (a.t = "num" => b.t \in {"q", "num"})
+             IN  IF c.f = "scale" THEN (a.t # "num" => b = a) /\ (a.t = "num" => b.t \in {"q", "num", "free"})
                  ELSE (a.t # "none" => b = a)
+(* given numbers need no window: every numeric cell of a feature without non-numeric window values is transformed *)
+GivenNumbers ==
+  (go /\ c.f = "scale" /\ c.sh.k = "const" /\ c.sc.k = "const") =>
+    \A j \in DOMAIN c.cols : NumericFeature(c.cols[j], c.using) =>
+      \A i \in DOMAIN c.cols[j] : c.cols[j][i].t = "num" =>
+         OutCols(c)[j][i] = QCell(QMul(QAdd(QI(c.cols[j][i].v), Q(c.sh.n, c.sh.d)), Q(c.sc.n, c.sc.d)), QI(1))
 (* Impute leaves no missing value in an imputable feature, and is idempotent *)
 ImputeComplete ==
   (go /\ c.f = "impute") =>
@@ -305,7 +324,7 @@ ScaledWin(j) == LET o == Win(OutCols(c)[j], c.using)
                 IN  SelectSeq(o, LAMBDA x : x.t = "q")
 ScalePost ==
   (go /\ c.f = "scale") =>
-    \A j \in DOMAIN c.cols : Scalable(c.cols[j], c.using) =>
+    \A j \in DOMAIN c.cols : Scalable(c.cols[j], c.sh, c.sc, c.using) =>
       LET S  == ScaledWin(j)                     \* cells q/sqrt(r), r common to the column
           qs == [i \in DOMAIN S |-> QOf(S[i])]
           r  == <<S[1].rn, S[1].rd>>
